@@ -934,7 +934,7 @@ func (g *gram) finish() {
 func genGrammarSpend(t *rapid.T, fs flagSet) *spend {
 	sk := genSkeleton(t, 1)
 	idx := rapid.IntRange(0, len(sk.tx.In)-1).Draw(t, "idx")
-	layer := rapid.SampledFrom([]string{"bare", "p2sh", "p2wsh", "p2wsh", "p2sh-p2wsh", "tapscript", "tapscript"}).Draw(t, "layer")
+	layer := rapid.SampledFrom([]string{"p2sh", "tapscript", "bare", "p2wsh", "p2sh", "p2sh-p2wsh", "tapscript", "bare"}).Draw(t, "layer")
 	g := &gram{t: t, flags: fs.model, tx: sk.tx, idx: idx, sepPos: 0xffffffff}
 	switch layer {
 	case "p2wsh", "p2sh-p2wsh":
@@ -1057,6 +1057,38 @@ func genGrammarSpend(t *rapid.T, fs flagSet) *spend {
 		in.ScriptSig = ms.PushData(prog)
 	case "tapscript":
 		in.Witness = append(cloneItems(items), script, tree.ControlBlock(0))
+	}
+	// stage targeting: the final checks (legacy placements) and the witness
+	// program checks (witness placements)
+	switch layer {
+	case "bare", "p2sh":
+		if !g.dead && rapid.IntRange(0, 1).Draw(t, "finalTarget") == 1 {
+			if fs.model&ms.Witness != 0 && (fs.model&ms.CleanStack == 0 || rapid.Bool().Draw(t, "finalKind")) {
+				in.Witness = [][]byte{{1}}
+				g.note("witness-on-non-witness-spend")
+			} else {
+				in.ScriptSig = append([]byte{ms.OP_1}, in.ScriptSig...)
+				g.note("extra-item-at-stack-bottom")
+			}
+		}
+	default:
+		if rapid.IntRange(0, 4).Draw(t, "witprogTarget") == 4 {
+			switch rapid.IntRange(0, 2).Draw(t, "witprogEdit") {
+			case 0:
+				pk := append([]byte{}, sk.prevouts[idx].PkScript...)
+				pk[len(pk)-1] ^= 1
+				sk.prevouts[idx].PkScript = pk
+				g.note("program-byte-flipped-in-the-output")
+			case 1:
+				w := cloneItems(in.Witness)
+				w[len(w)-1] = append(w[len(w)-1], 0x61)
+				in.Witness = w
+				g.note("last-witness-item-extended")
+			default:
+				in.ScriptSig = append([]byte{ms.OP_0}, in.ScriptSig...)
+				g.note("scriptSig-edited-on-witness-spend")
+			}
+		}
 	}
 	s.note = strings.Join(g.notes, "; ")
 	if g.dead {
